@@ -4,7 +4,7 @@ Same exploration as C03 (harness/schedcase.py) including crossing / cyclic /
 self-addressed sends; oracle: every client Deferred fires within 600 s of
 virtual time and, at quiescence, no node lock and no qubit lock is held.
 
-Two directed families on top of the pair exploration (schedcase.family_tasks;
+Four directed families on top of the pair exploration (schedcase.family_tasks;
 they run first and are never skipped for time):
 
 * "slow grant": ONE two-qubit gate, no contention; a lock request of
@@ -14,7 +14,17 @@ they run first and are never skipped for time):
 * "operations waiting for one missing connection": the network is still coming
   up (`SimNet(..., bringup=spec)`: a directed connection is refused and retried by
   the node), 2-3 operations on different handles all wait in `get_connection` for
-  the same peer, then the connection comes up.
+  the same peer, then the connection comes up;
+* "operation behind a completed gate": a two-qubit gate pulls a register one of
+  whose qubits is held by a THIRD node; everything the new (variant: the old)
+  simulator sends to that node is held while anything else can be delivered
+  (`HeldConnPolicy`); the third node's client issues an operation on its handle
+  of that register when the gate has RETURNED (case key "chain": the only serial
+  order is gate; operation) -- or together with the gate;
+* "one remote node twice in the gate's lock list": a two-qubit gate on two
+  handles simulated at the same remote node, against a third party's operation
+  on another qubit simulated there (placement "trio"), delay injection over the
+  whole gate including its release phase.
 
 A schedule in which nothing is deliverable any more, only timers fire (lock
 pollers, `_lock_nodes` time-outs and retries), some lock is held and no operation
